@@ -28,6 +28,10 @@ pub struct PathPt {
     /// when present the ending time is this absolute value (instead of t0 + r x dtmax)
     #[serde(default)]
     pub end_abs: Option<f64>,
+    /// 0: statically sized real state; 1: dynamically sized real state; 2: complex state (real and imaginary parts
+    /// are two copies of the real problem, the imaginary one started from half the initial state)
+    #[serde(default)]
+    pub mode: u8,
 }
 impl PathPt {
     pub fn cfg(&self) -> Cfg {
@@ -66,7 +70,7 @@ impl Check for Lattice {
         "path-lattice"
     }
     fn rule(&self) -> String {
-        "7 solvers x 6 catalogue problems (dimension 1-4) x start time x maximum step x interval length = r x maximum step (r swept from a fraction of one step to ten steps, finely across m/2 where the start-up stops fitting, plus thousands of steps) x tolerance x minimum step; every yielded item of every run is judged; signature = run-length-compressed gap classes (T/t/U first gap vs trial step, = + - c) and end kind".into()
+        "7 solvers x 6 catalogue problems (dimension 1-4) x start time x maximum step x interval length = r x maximum step (r swept from a fraction of one step to ten steps, finely across m/2 where the start-up stops fitting, plus thousands of steps) x tolerance x minimum step, statically sized real states and, for one slice per solver and problem, dynamically sized and complex states; every yielded item of every run is judged; signature = run-length-compressed gap classes (T/t/U first gap vs trial step, = + - c) and end kind".into()
     }
     fn axes(&self, t: Tier) -> Value {
         json!({"solvers": ALL_SOLVERS.iter().map(|s| s.name()).collect::<Vec<_>>(), "problems": LATTICE_PROBLEMS, "t0": t.pick(vec![0.0, -1.3], vec![0.0, -1.3, 2.5]),
@@ -84,7 +88,7 @@ impl Check for Lattice {
                     for &t0 in &t.pick(vec![0.0, -1.3], vec![0.0, -1.3, 2.5]) {
                         if solver == Solver::Euler {
                             for &dt in &[0.5, 0.1, 0.03, 1.0 / 3.0] {
-                                v.push(PathPt { solver, problem: p.to_string(), t0, dtmax: dt, r, tol: 1e-3, dtmin_rel: 1.0, end_abs: None });
+                                v.push(PathPt { solver, problem: p.to_string(), t0, dtmax: dt, r, tol: 1e-3, dtmin_rel: 1.0, end_abs: None, mode: 0 });
                             }
                             continue;
                         }
@@ -94,8 +98,27 @@ impl Check for Lattice {
                                     if r >= 1000.0 && (tol < 1e-6 || dtmin_rel > 1e-6 && dtmax < 0.1) {
                                         continue;
                                     }
-                                    v.push(PathPt { solver, problem: p.to_string(), t0, dtmax, r, tol, dtmin_rel, end_abs: None });
+                                    v.push(PathPt { solver, problem: p.to_string(), t0, dtmax, r, tol, dtmin_rel, end_abs: None, mode: 0 });
                                 }
+                            }
+                        }
+                    }
+                }
+            }
+        }
+        // dynamically sized and complex states: one slice of the lattice (every r) per solver and problem
+        for &solver in &ALL_SOLVERS {
+            for &r in &r_values(t) {
+                if r >= 1000.0 {
+                    continue;
+                }
+                for p in &LATTICE_PROBLEMS {
+                    for mode in 1..=2u8 {
+                        if solver == Solver::Euler {
+                            v.push(PathPt { solver, problem: p.to_string(), t0: -1.3, dtmax: 0.1, r, tol: 1e-3, dtmin_rel: 1.0, end_abs: None, mode });
+                        } else {
+                            for &tol in &t.pick(vec![1e-5], vec![1e-2, 1e-5]) {
+                                v.push(PathPt { solver, problem: p.to_string(), t0: -1.3, dtmax: 0.1, r, tol, dtmin_rel: 1e-7, end_abs: None, mode });
                             }
                         }
                     }
@@ -114,7 +137,7 @@ impl Check for Lattice {
                                 if solver == Solver::Euler && tol != 1e-2 {
                                     continue;
                                 }
-                                v.push(PathPt { solver, problem: prob.to_string(), t0, dtmax, r: (end - t0) / dtmax, tol, dtmin_rel: if solver == Solver::Euler { 1.0 } else { 1e-7 }, end_abs: Some(end) });
+                                v.push(PathPt { solver, problem: prob.to_string(), t0, dtmax, r: (end - t0) / dtmax, tol, dtmin_rel: if solver == Solver::Euler { 1.0 } else { 1e-7 }, end_abs: Some(end), mode: 0 });
                             }
                         }
                     }
@@ -137,9 +160,21 @@ impl Check for Lattice {
         // "does not finish" in the thorough tier)
         let need = if p.solver == Solver::Euler { 0.0 } else { 200.0 * (cfg.t1 - cfg.t0) * prob.lipschitz(cfg.t0, cfg.t1).max(1.0) * p.tol.powf(-1.0 / p.solver.work_order()) };
         let lim = Limits { max_calls: if p.r >= 1000.0 { 60_000_000 } else { (need as u64).clamp(2_000_000, 60_000_000) }, max_items: 3_000_000, extra_next: 0 };
-        let out = solve::<f64>(p.solver, DimMode::Static, &cfg, &y0, rhs, &lim);
+        if p.mode == 2 {
+            let pr = prob.clone();
+            let rhs: Rhs<C64> = Rc::new(move |t, z| {
+                let (u, w): (Vec<f64>, Vec<f64>) = (z.iter().map(|c| c.re).collect(), z.iter().map(|c| c.im).collect());
+                Ok(pr.f(t, &u).into_iter().zip(pr.f(t, &w)).map(|(a, b)| C64::new(a, b)).collect())
+            });
+            let z0: Vec<C64> = y0.iter().map(|y| C64::new(*y, 0.5 * y)).collect();
+            let out = solve::<C64>(p.solver, DimMode::Static, &cfg, &z0, rhs, &lim);
+            structural(&mut o, p.solver, &cfg, &z0, &out, &|| format!("{:?}", p));
+            o.sig = format!("{}|complex|{}", p.solver.name(), gap_signature(p.solver, &cfg, &out));
+            return o;
+        }
+        let out = solve::<f64>(p.solver, if p.mode == 1 { DimMode::Dynamic } else { DimMode::Static }, &cfg, &y0, rhs, &lim);
         structural(&mut o, p.solver, &cfg, &y0, &out, &|| format!("{:?}", p));
-        o.sig = format!("{}|{}", p.solver.name(), gap_signature(p.solver, &cfg, &out));
+        o.sig = format!("{}|{}{}", p.solver.name(), if p.mode == 1 { "dynamic|" } else { "" }, gap_signature(p.solver, &cfg, &out));
         o
     }
     fn required(&self, _t: Tier) -> Vec<&'static str> {
